@@ -182,6 +182,33 @@ func probe(a arg) (string, string) {
 	return "", ""
 }
 
+// two results in flight: a text handed out by one call must still read the same after a later call
+type flightArg struct {
+	A [3]int `json:"a"`
+	B [3]int `json:"b"`
+}
+
+func probeFlight(p flightArg) (string, string) {
+	da, db := date.New(p.A[0], date.Month(p.A[1]), p.A[2]), date.New(p.B[0], date.Month(p.B[1]), p.B[2])
+	wa, wb := oracle.DateText(int64(p.A[0]), p.A[1], p.A[2], false), oracle.DateText(int64(p.B[0]), p.B[1], p.B[2], false)
+	wbBasic := oracle.DateText(int64(p.B[0]), p.B[1], p.B[2], true)
+	ta, _ := da.MarshalText()
+	tb, _ := db.MarshalText()
+	if string(ta) != wa || string(tb) != wb {
+		return "text_overwritten_by_later_call", fmt.Sprintf("a.MarshalText() then b.MarshalText(): the two texts now read %q and %q, want %q and %q", ta, tb, wa, wb)
+	}
+	fa, _ := date.DefaultFormatter(nil, da, 0)
+	fb, _ := date.DefaultFormatter(nil, db, date.FormatBasic)
+	if string(fa) != wa || string(fb) != wbBasic {
+		return "text_overwritten_by_later_call", fmt.Sprintf("DefaultFormatter(nil,a) then DefaultFormatter(nil,b,basic): the two texts now read %q and %q, want %q and %q", fa, fb, wa, wbBasic)
+	}
+	var g date.Date
+	if err := g.UnmarshalText(ta); err != nil || g != da {
+		return "text_overwritten_by_later_call", fmt.Sprintf("the text kept from a.MarshalText() parses to %v, %v after later calls; want %v", g, err, da)
+	}
+	return "", ""
+}
+
 func main() {
 	mc.Main("C01", "every real calendar date of the stated year range x {extended, basic} x every output path x every input path; "+
 		"a point is one (date, format, MaxInputLength); non-trivial = month end, leap day, year boundary or 5+ digit year", func(r *mc.Run) {
@@ -192,6 +219,20 @@ func main() {
 		r.Assume("expected texts are built digit by digit by the oracle (no fmt, no package time)")
 		r.Assume("years beyond 9999 are covered for a stated set of years only (all their days), not all 10^9 years")
 
+		pf := mc.NewProbe(r, "two_results_in_flight", nil, probeFlight)
+		r.Phase("serial: two formatted texts in flight (a result must survive later calls), all ordered pairs of 12 dates", "complete for the listed dates", func() {
+			r.Serial(func(w *mc.W) {
+				ds := [][3]int{{2020, 2, 29}, {1999, 12, 31}, {1, 1, 1}, {9999, 12, 31}, {0, 1, 1}, {2024, 10, 20}, {2002, 8, 7}, {1900, 3, 1}, {2000, 2, 29}, {1234, 5, 6}, {4321, 11, 30}, {2024, 1, 10}}
+				for _, a := range ds {
+					for _, b := range ds {
+						w.Point()
+						w.NonTrivial()
+						pf.Do(w, flightArg{a, b})
+					}
+				}
+				w.Outcome("in flight")
+			})
+		})
 		// all dates of years 0..9999: build the index year -> first ordinal once
 		perYear := func(w *mc.W, y int64, maxLen int, heavyAll bool) {
 			for m := 1; m <= 12; m++ {
